@@ -9,7 +9,7 @@ def _env(stream):
 
 CONFIG = {
     "lean_props": "J5V/Props/C05.lean",
-    "extract": [],
+    "extract": ["print"],
     "streams": [
         {
             "name": "print.reparse", "harness": "printh", "driver": None, "env": _env("reparse"),
@@ -120,6 +120,11 @@ CONFIG = {
         "files are inside the shape is decided per print.file op by Cover.simpleFileB (proved sound: simpleFileB_sound) and "
         "reported under coverage.reparse_theorem_* (fraction, per origin, reasons for being outside)",
         "float option values (strconv.FormatFloat) and enum value names are opaque texts produced by Go (oracle)",
+        "go/ast extractor extract/print.go (regenerates lean/J5V/Generated/PrintFacts.lean on every run: escape table, case "
+        "conditions and hex padding of prototextString, byte class of indexNeedEscapeInString, typeOrder constants, body of "
+        "sourceElements.Less, blank-line rule / loop state / addGap cases of printElements, bodies of commentLines and "
+        "leadingComments); the obligations C05_src_* compare them with what the models assume (table entries through "
+        "TextString.escStep itself, the rest as rendered source text); anything not recognised is emitted as <unknown>",
         "Go harness internal/verifh/printh, overlay hook files, generators (own + j5sgen), check engine",
     ],
     "assumptions": [
@@ -131,28 +136,8 @@ CONFIG = {
 }
 
 
-def extra(ctx):
-    """How much of the generated space the grammar theorem C05_reparse covers: every `file` op of the print.file stream is
-    re-sent to the driver as a `cover` op, which evaluates the decidable predicate Cover.simpleFileB (proved sound for
-    SimpleFile, the hypothesis of C05_reparse) on the arranged summary and names the reasons when it fails. Evidence only:
-    it cannot fail the check."""
-    import glob
-    import subprocess
-    lean = os.path.join(ctx["verif"], "lean") if os.path.abspath(ctx["repo"]) == "/repo" else os.path.join(ctx["work"], "lean")
-    dbin = os.path.join(lean, ".lake", "build", "bin", "drv_print")
-    ops = []
-    for p in sorted(glob.glob(os.path.join(ctx["workdir"], "print.file-*", "ops.txt"))):
-        for line in open(p, errors="replace"):
-            if line.startswith("file "):
-                ops.append("cover " + line[5:].rstrip("\n"))
-    cov = {"reparse_theorem_ops": len(ops)}
-    if not ops or not os.path.exists(dbin):
-        return {"coverage": cov}
-    try:
-        out = subprocess.run([dbin], input=("\n".join(ops) + "\n").encode(), stdout=subprocess.PIPE, timeout=900).stdout.decode(errors="replace").split("\n")
-    except Exception as e:  # noqa: BLE001
-        return {"coverage": cov, "notes": ["C05 cover step failed: %s" % e]}
-    per, why, covered = {}, {}, 0
+def _tally(out, prefix, cov, nops):
+    per, why, covered, lead = {}, {}, 0, 0
     for line in out:
         w = line.split(" ")
         if len(w) < 2 or w[1] not in ("0", "1"):
@@ -162,12 +147,52 @@ def extra(ctx):
         if w[1] == "1":
             o[0] += 1
             covered += 1
+            if len(w) > 2 and w[2] == "lead":
+                lead += 1
         else:
             for r in (w[2] if len(w) > 2 else "other").split(","):
                 k = w[0] + ":" + r
                 why[k] = why.get(k, 0) + 1
-    cov["reparse_theorem_covered"] = covered
-    cov["reparse_theorem_fraction"] = round(covered / max(1, len(ops)), 4)
-    cov["reparse_theorem_by_origin"] = {k: "%d/%d" % (v[0], v[1]) for k, v in sorted(per.items())}
-    cov["reparse_theorem_outside_reasons"] = dict(sorted(why.items()))
-    return {"coverage": cov}
+    cov[prefix + "_covered"] = covered
+    cov[prefix + "_fraction"] = round(covered / max(1, nops), 4)
+    cov[prefix + "_by_origin"] = {k: "%d/%d" % (v[0], v[1]) for k, v in sorted(per.items())}
+    cov[prefix + "_outside_reasons"] = dict(sorted(why.items()))
+    return lead
+
+
+def extra(ctx):
+    """How much of the generated space the theorems cover: every `file` op of the print.file stream is re-sent to the
+    driver (a) as a `cover` op, which evaluates the decidable predicate Cover.simpleFileB (proved sound for SimpleFile, the
+    hypothesis of the grammar theorem C05_reparse) on the arranged summary and names the reasons when it fails, and (b) as
+    a `cover2` op, which evaluates the two decidable hypotheses of the layout theorem C05_reprint_checked
+    (Cover.quietLFileB on the arranged summary, Cover.relaidFileLB on the summary and what the grammar model reads from the
+    model's text; both proved sound): where they hold, 'the second print is the first' follows from the theorem for that
+    descriptor (leading comments included). Evidence only: it cannot fail the check."""
+    import glob
+    import subprocess
+    lean = os.path.join(ctx["verif"], "lean") if os.path.abspath(ctx["repo"]) == "/repo" else os.path.join(ctx["work"], "lean")
+    dbin = os.path.join(lean, ".lake", "build", "bin", "drv_print")
+    ops = []
+    for p in sorted(glob.glob(os.path.join(ctx["workdir"], "print.file-*", "ops.txt"))):
+        for line in open(p, errors="replace"):
+            if line.startswith("file "):
+                ops.append(line[5:].rstrip("\n"))
+    cov = {"reparse_theorem_ops": len(ops)}
+    if not ops or not os.path.exists(dbin):
+        return {"coverage": cov}
+    notes = []
+    for kind, prefix in (("cover", "reparse_theorem"), ("cover2", "reprint_theorem")):
+        try:
+            out = subprocess.run([dbin], input=("\n".join(kind + " " + o for o in ops) + "\n").encode(),
+                                 stdout=subprocess.PIPE, timeout=900).stdout.decode(errors="replace").split("\n")
+        except Exception as e:  # noqa: BLE001
+            notes.append("C05 %s step failed: %s" % (kind, e))
+            continue
+        lead = _tally(out, prefix, cov, len(ops))
+        if kind == "cover2":
+            cov["reprint_theorem_ops"] = len(ops)
+            cov["reprint_theorem_covered_with_leading_comments"] = lead
+    res = {"coverage": cov}
+    if notes:
+        res["notes"] = notes
+    return res
